@@ -3,9 +3,11 @@ CONSTANTS
   EmptyAnglePathIsCwd = FALSE
   ExplicitByCanonical = TRUE
   KeyByCanonical = TRUE
+  LookupCanonical = TRUE
   MaxIncludes = 4
 INVARIANT Refines
 INVARIANT RefSane
 INVARIANT OnceOnly
+INVARIANT OwnRefines
 CONSTRAINT DumpConstraint
 CHECK_DEADLOCK FALSE
